@@ -30,9 +30,10 @@ CONSTANTS InitAbsent,  \* wallets that do not exist in this instance initially (
 VARIABLES wchain, pend, wmem, memp, up,
           status,   \* per wallet: "absent" | "ready" | "importing" | "removing"   (bucket ws, durable)
           cursor,   \* per importing wallet: height up to which the rescan has recorded its history (durable)
-          tasks     \* queue of background tasks <<kind, wallet>> (volatile; rebuilt from status on restart)
+          tasks,    \* queue of background tasks <<kind, wallet>> (volatile; rebuilt from status on restart)
+          faulted   \* a block step failed on a storage error and no later block step has succeeded yet
 
-followerVars == <<wchain, pend, wmem, memp, up, status, cursor, tasks>>
+followerVars == <<wchain, pend, wmem, memp, up, status, cursor, tasks, faulted>>
 
 Ready == {w \in Wallets : status[w] = "ready"}
 \* wallets whose transactions at height h are on record (live, or already covered by the rescan)
@@ -169,6 +170,7 @@ FollowerInit ==
     /\ status = [w \in Wallets |-> IF w \in InitAbsent THEN "absent" ELSE "ready"]
     /\ cursor = [w \in Wallets |-> 0]
     /\ tasks = <<>>
+    /\ faulted = FALSE
 
 HandleBlock ==
     /\ up
@@ -184,6 +186,8 @@ HandleBlock ==
                           IF status[w] = "importing" /\ CommonLen(wchain, wc2) < Len(wchain)
                           THEN Min(cursor[w], CommonLen(wchain, wc2)) ELSE cursor[w]]
     /\ ntfB' = Tail(ntfB)
+    \* any block step that commits repairs what an earlier failed one left undone
+    /\ faulted' = IF Head(ntfB) \in Range(wchain) \/ OnBest(Head(ntfB)) THEN FALSE ELSE faulted
     /\ UNCHANGED <<parent, content, best, pool, ntfT, memp, up, status, tasks>>
 
 HandleTx ==
@@ -195,7 +199,7 @@ HandleTx ==
             /\ memp' = memp \cup {t}
        ELSE UNCHANGED <<pend, memp>>
     /\ ntfT' = Tail(ntfT)
-    /\ UNCHANGED <<parent, content, best, pool, ntfB, wchain, wmem, up, status, cursor, tasks>>
+    /\ UNCHANGED <<parent, content, best, pool, ntfB, wchain, wmem, up, status, cursor, tasks, faulted>>
 
 (***************************************************************************)
 (* Crash and restart (C06).  The wallet is part of the node process: a     *)
@@ -248,7 +252,7 @@ Crash ==
     /\ up
     /\ up' = FALSE
     /\ ntfB' = <<>> /\ ntfT' = <<>> /\ pool' = {}
-    /\ memp' = {} /\ wmem' = 0 /\ tasks' = <<>>
+    /\ memp' = {} /\ wmem' = 0 /\ tasks' = <<>> /\ faulted' = FALSE
     /\ UNCHANGED <<parent, content, best, wchain, pend, status, cursor>>
 
 Restart ==
@@ -260,7 +264,7 @@ Restart ==
     /\ up' = TRUE
     \* the worker re-queues unfinished background work from the persisted wallet status
     /\ tasks' \in Perms(TaskSet)     \* in the order GetAllWalletStatus yields them
-    /\ UNCHANGED <<parent, content, best, pool, ntfB, ntfT, memp, status>>
+    /\ UNCHANGED <<parent, content, best, pool, ntfB, ntfT, memp, status, faulted>>
 
 RestartCrash(k) ==
     /\ ~up
@@ -268,7 +272,7 @@ RestartCrash(k) ==
     /\ LET r == CatchUp(wchain, pend, k)
        IN /\ wchain' = r[1] /\ pend' = r[2]
           /\ cursor' = CursorAfter(wchain, r[1])
-    /\ UNCHANGED <<parent, content, best, pool, ntfB, ntfT, memp, wmem, up, status, tasks>>
+    /\ UNCHANGED <<parent, content, best, pool, ntfB, ntfT, memp, wmem, up, status, tasks, faulted>>
 
 (***************************************************************************)
 (* Wallet life cycle (C07, C08): background import and removal.            *)
@@ -289,13 +293,13 @@ Import(w) ==
     /\ status' = [status EXCEPT ![w] = "importing"]
     /\ cursor' = [cursor EXCEPT ![w] = 0]
     /\ tasks' = Append(tasks, <<"import", w>>)
-    /\ UNCHANGED <<chainVars, wchain, pend, wmem, memp, up>>
+    /\ UNCHANGED <<chainVars, wchain, pend, wmem, memp, up, faulted>>
 
 Remove(w) ==
     /\ up /\ status[w] = "ready" /\ ~Busy
     /\ status' = [status EXCEPT ![w] = "removing"]
     /\ tasks' = Append(tasks, <<"remove", w>>)
-    /\ UNCHANGED <<chainVars, wchain, pend, wmem, memp, up, cursor>>
+    /\ UNCHANGED <<chainVars, wchain, pend, wmem, memp, up, cursor, faulted>>
 
 \* does block b contain a transaction (coinbase included) that concerns a wallet of W ?
 ConcernsBlock(b, W) ==
@@ -326,7 +330,7 @@ ImportStep ==
                        /\ tasks' = Append(Tail(tasks), Head(tasks))
           ELSE /\ UNCHANGED <<status, cursor>>
                /\ tasks' = Append(Tail(tasks), Head(tasks))
-    /\ UNCHANGED <<chainVars, wchain, pend, wmem, memp, up>>
+    /\ UNCHANGED <<chainVars, wchain, pend, wmem, memp, up, faulted>>
 
 RemoveStep ==
     /\ up /\ tasks # <<>> /\ Head(tasks)[1] = "remove"
@@ -336,12 +340,36 @@ RemoveStep ==
        \* pending transactions that pay the wallet and no other wallet of this instance go with it
        \* (RemoveRelevantTx finds them through the wallet's pending credits)
        /\ pend' = {t \in pend : ~PaysTo(t, {w}) \/ PaysTo(t, {x \in Wallets \ {w} : status[x] # "absent"})}
-    /\ UNCHANGED <<chainVars, wchain, wmem, memp, up, cursor>>
+    /\ UNCHANGED <<chainVars, wchain, wmem, memp, up, cursor, faulted>>
+
+(***************************************************************************)
+(* Storage faults (C18).  A storage call of a step fails: the update is    *)
+(* rolled back, so the step has no durable effect.  A block step that      *)
+(* fails is not retried - the notification is consumed, the in-memory tip  *)
+(* stays - and the wallet catches up through the reorganisation path when  *)
+(* the NEXT tip arrives; a failed worker step re-queues its task; a failed *)
+(* API call returns the error to the caller, who may repeat it.            *)
+(***************************************************************************)
+HandleBlockFault ==
+    /\ up /\ ntfB # <<>>
+    /\ ntfB' = Tail(ntfB)
+    /\ faulted' = TRUE
+    /\ UNCHANGED <<parent, content, best, pool, ntfT, wchain, pend, wmem, memp, up, status, cursor, tasks>>
+
+HandleTxFault ==
+    /\ up /\ ntfT # <<>>
+    /\ ntfT' = Tail(ntfT)
+    /\ UNCHANGED <<parent, content, best, pool, ntfB, wchain, pend, wmem, memp, up, status, cursor, tasks, faulted>>
+
+WorkerStepFault ==
+    /\ up /\ tasks # <<>>
+    /\ tasks' = Append(Tail(tasks), Head(tasks))
+    /\ UNCHANGED <<chainVars, wchain, pend, wmem, memp, up, status, cursor, faulted>>
 
 (***************************************************************************)
 (* Properties                                                              *)
 (***************************************************************************)
-Quiescent == up /\ ntfB = <<>> /\ ntfT = <<>> /\ tasks = <<>>
+Quiescent == up /\ ntfB = <<>> /\ ntfT = <<>> /\ tasks = <<>> /\ ~faulted
 
 \* C01 (sync part): once every notification is processed the wallet is on the best chain
 \* C06: ... also after any number of crashes and restarts
